@@ -124,6 +124,26 @@ PROPS = {
         "level_text": "All algebraic laws are Lean theorems over every well-formed shape: idempotence, both null laws, order-insensitivity as equality of meanings (∀ documents), and the object/array/scalar structure equations, with corollaries at the level of sources. merger is compared with the real function on every run; the laws are re-evaluated on the real from_sources for generated document pairs.",
         "level_note": "Trusted: Lean kernel; hand-written model of merger.rs (differential testing, exhaustive over constructor pairs and flags at small scope); reference semantics for the meaning comparison.",
     },
+    "C12": {
+        "module": "ShapeVerif.Props.C12",
+        "theorems": ["ShapeVerif.inferSVal_cost", "ShapeVerif.inferSVal_level_additive", "ShapeVerif.inferDoc_cost",
+                     "ShapeVerif.merger_cost", "ShapeVerif.merger_cost_right", "ShapeVerif.merge_cost",
+                     "ShapeVerif.subset_cost"],
+        "statements": {
+            "inferSVal_cost": "calls of From<&Value> on v = nodes v (each node once)",
+            "inferSVal_level_additive": "one more array level adds exactly one call",
+            "inferDoc_cost": "calls of parse_rule on d ≤ nodes d",
+            "merger_cost": "calls of merger in merger(a,b) ≤ size a (and ≤ size b)",
+            "merge_cost": "merger calls of merging a list of shapes into an accumulator ≤ total size of the merged-in shapes",
+            "subset_cost": "calls of is_subset in a.is_subset(b) ≤ size a * size b",
+        },
+        "partial": ["the work measure proved is the number of calls of the four recursive functions (tied exactly to the code by hook counters); that heap allocations / time follow the call counts polynomially is measured on growth families (log-log slope <= 2.3), not proved",
+                    "the tick twin of is_subset is a separate function mirroring evaluation order; its Boolean result and its count are both compared with the real code on every case"],
+        "rule": "ticks_subset / ticks_merger on all ordered pairs of the small-scope universe, related random pairs and reachable (sample, accumulator) pairs; ticks_infer / ticks_inferv on random documents and on the D10 family [[..[1,1]..,1],1] to depth 24; allocation counts of from_str, From<&Value>, from_sources, is_subset on depth 1..20, object-nesting 1..10, width 10..1000 (thorough 10^4), 10..1000 sources with a log-log slope test. Non-trivial = container involved.",
+        "assumptions": ["allocations and wall time are bounded by a polynomial of the call counts (validated by the measured families)"],
+        "level_text": "For the deterministic call-count measure the bounds are Lean theorems over all inputs: the value path converts each node exactly once (so a nesting level adds work proportional to that level — the exponential D10 behaviour is gone), the text path enters parse_rule at most once per node, merging k sources costs at most the total size of the sources in merger calls, and a subset query makes at most size(a)*size(b) calls. The model's counts are compared with hook counters in the real code for every generated case; allocation counts on the property's growth families are measured on the real code and must fit a low-degree polynomial.",
+        "level_note": "Trusted: Lean kernel (plus Mathlib's nlinarith in this proof file only); tick twins written by hand and tied to the hooks by exact comparison; the link from call counts to allocations/time is empirical.",
+    },
     "C17": {
         "module": "ShapeVerif.Props.C17",
         "theorems": ["ShapeVerif.infer_null", "ShapeVerif.infer_bool", "ShapeVerif.infer_number",
@@ -274,6 +294,25 @@ def ident_keys(sx):
 def direct_oracle(pid, ops, impl):
     """Property checks decided on the implementation's answers alone (no reference evaluation)."""
     fails = []
+    if pid == "C12":
+        import math
+        fam = {}
+        for o, r in zip(ops, impl):
+            f = o.split("\t")
+            if f[0] == "allocs":
+                try:
+                    c, sz = r.split(" ")
+                    fam.setdefault(f[1], []).append((int(sz), int(c), o))
+                except ValueError:
+                    fails.append({"op": o, "impl": r, "expected": "<count> <size>", "why": "allocation measurement failed"})
+        for name, pts in fam.items():
+            pts.sort()
+            for (s1, c1, _), (s2, c2, o2) in zip(pts, pts[1:]):
+                if c1 > 8 and s2 >= 1.3 * s1:
+                    slope = math.log(c2 / c1) / math.log(s2 / s1)
+                    if slope > 2.3:
+                        fails.append({"op": o2, "impl": f"{c2} allocations at size {s2} after {c1} at size {s1} (log-log slope {slope:.2f})",
+                                      "expected": "slope <= 2.3", "why": "heap allocations must grow polynomially (low degree) with input size in family " + name})
     if pid == "C11":
         # Display injectivity on the implementation: among shapes with identifier-like keys no two
         # different shapes print the same text
